@@ -83,7 +83,7 @@ static Token *skip_line(Token *tok) {
   if (tok->at_bol)
     return tok;
   warn_tok(tok, "extra token");
-  while (!tok->at_bol)
+  while (!tok->at_bol && tok->kind != TK_EOF)
     tok = tok->next;
   return tok;
 }
@@ -232,7 +232,7 @@ static Token *copy_line(Token **rest, Token *tok) {
   Token head = {};
   Token *cur = &head;
 
-  for (; !tok->at_bol; tok = tok->next)
+  for (; !tok->at_bol && tok->kind != TK_EOF; tok = tok->next)
     cur = cur->next = copy_token(tok);
 
   cur->next = new_eof(tok);
@@ -985,7 +985,7 @@ static Token *preprocess2(Token *tok) {
     if (equal(tok, "pragma")) {
       do {
         tok = tok->next;
-      } while (!tok->at_bol);
+      } while (!tok->at_bol && tok->kind != TK_EOF);
       continue;
     }
 
